@@ -888,7 +888,7 @@ class C19(Prop):
             return
         got = out[1]
         if full["t"] == "json" or got["t"] != full["t"] or got["names"] != full["names"]:
-            fail(i, key, "filter-changes-data", f"filtered load returns a {got['t']} {got['names']}, stored {full['t']} {full['names']}")
+            fail(i, key, "filter-changes-data", f"filtered load returns a {got['t']} {got.get('names')}, stored {full['t']} {full.get('names')}")
             return
         nidx = len(full["names"])
         if full["t"] == "series":
